@@ -333,7 +333,8 @@ let run_v1 (path : string) =
            Hashtbl.replace info aid (a.i_target, z coll)
          | Base.Err _ -> mismatch ~case:!case ~step:!step ~field:"v1.start.result" ~model:"err" ~impl:cls
          | Base.Panic -> mismatch ~case:!case ~step:!step ~field:"v1.start.result" ~model:"panic" ~impl:cls);
-        rebase := true; last_bid := None; last_tick := false
+        (* may follow a closing bid (re-liquidation inside the same message): the bid stays the last op *)
+        rebase := true; last_tick := false
       | "op" :: "nostart" :: _ ->
         incr step; incr steps; bump "v1:op:nostart"; rebase := true; last_bid := None; last_tick := false
       | "op" :: "tick" :: now :: ai :: pi :: ao_act :: po :: cls :: _ ->
